@@ -70,6 +70,7 @@ class RefSim:
     def __init__(self):
         self.root = RefActor(("root",), None, None)
         self.registry = {}
+        self.auto_count = {}
         self.expect = []
         self.stops = {}       # op index -> label stopped
         self.reuse = False
@@ -151,7 +152,11 @@ class RefSim:
                         self.reuse = True
                     child = RefActor(("explicit", explicit), src, actor, system_id)
                 else:
-                    n = len([c for c in actor.children if c.ident[0] == "auto" and c.key == src])
+                    # ordinal among ALL auto children ever started under this label path (a respawned parent
+                    # with a reused explicit id has the same path as its predecessor)
+                    ck = (actor.label(), src)
+                    n = self.auto_count.get(ck, 0)
+                    self.auto_count[ck] = n + 1
                     child = RefActor(("auto", src, n), src, actor, system_id)
                 actor.children.append(child)
                 if system_id:
